@@ -135,6 +135,24 @@ def tus(tier, seed):
         body += '  incdece<scaled_integer<%s, power<%d, %d>>>(rng);\n' % (CT[t], e, rx)
     body += '}\n'
     res.append(dict(name='C12_ince', src=body, compiler='g++'))
+    # conversions (cvte): every value of 8/16-bit sources, shifts below, at and beyond the source's digit count
+    cv = [('sc', 'i8', -7, 'sc', 'i8', 0), ('sc', 'i8', -7, 'int', 'i32', 0), ('sc', 'i16', -15, 'sc', 'i16', 0), ('sc', 'i16', -15, 'int', 'i64', 0),
+          ('sc', 'i8', -8, 'sc', 'i16', 0), ('sc', 'u8', -8, 'int', 'u8', 0), ('sc', 'i8', -6, 'sc', 'i8', 1), ('sc', 'i16', -20, 'sc', 'i32', -4),
+          ('sc', 'u16', -16, 'sc', 'u16', 0), ('sc', 'i8', -3, 'sc', 'i32', -10), ('sc', 'i32', -16, 'sc', 'i16', -8), ('sc', 'i64', -40, 'int', 'i32', 0),
+          ('sc(ov)', 'i8', -7, 'sc(ov)', 'i8', 0), ('sc(rd)', 'i16', -15, 'sc(rd)', 'i32', 0), ('sc(ov(rd))', 'i8', -7, 'sc(ov(rd))', 'i16', 1)]
+    rnd5 = random.Random(seed * 91 + 6)
+    for _ in range(3 if tier == 'quick' else 20):
+        t = rnd5.choice(['i8', 'u8', 'i16', 'u16'])
+        e = -rnd5.randint(1, 20)
+        cv.append(('sc', t, e, rnd5.choice(['sc', 'int']), rnd5.choice(['i8', 'i16', 'i32', 'i64', 'u8', 'u32']), rnd5.randint(e + 1, e + 18)))
+    for i in range(0, len(cv), 6):
+        body = '#include "%s"\nint main(){ install(); Rng rng(seed_from_env()+5000+%d);\n' % (__file__.replace('.py', '.h'), i)
+        for (nl, tl, el, nr, tr, er) in cv[i:i + 6]:
+            if nr != 'int' and nr != nl:
+                nr = nl
+            body += '  gocv<%s, %s>(rng);\n' % (ENEST[nl].format(T=CT[tl], E=el), ENEST[nr].format(T=CT[tr], E=(0 if nr == 'int' else er)))
+        body += '}\n'
+        res.append(dict(name='C12_cvte_%d' % (i // 6), src=body, compiler='g++'))
     # shift-and-compare equivalence: mixed-exponent comparisons over narrow reps, both operand orders
     # (lines of the C03 table; the driver's oracle is the built-in comparison of the aligned representations)
     import os
